@@ -554,6 +554,91 @@ impl Fam for Tuples {
 	}
 }
 
+#[derive(Serialize, Deserialize, Debug, Clone)]
+pub struct OptUnions {
+	/// `Option` of an enum-as-union over a two-branch union that has no null branch
+	a: Option<IntOrString>,
+	/// the same with the branches the other way round
+	b: Option<IntOrString>,
+	/// over a union that has a null branch: `None` is that branch
+	c: Option<IntOrString>,
+	/// bytes / named fixed / long branches
+	d: Option<LongOrBytesOrFx>,
+	/// an enum branch and a record branch
+	e: Option<SymOrInner>,
+	z: i32,
+}
+#[derive(Serialize, Deserialize, Debug, Clone)]
+pub enum IntOrString {
+	Int(i32),
+	String(String),
+}
+#[derive(Serialize, Deserialize, Debug, Clone)]
+pub enum LongOrBytesOrFx {
+	Long(i64),
+	Bytes(#[serde(with = "serde_bytes")] Vec<u8>),
+}
+#[derive(Serialize, Deserialize, Debug, Clone)]
+pub enum SymOrInner {
+	#[serde(rename = "ns.Sym")]
+	Sym(Sym),
+	#[serde(rename = "ns.InnerU")]
+	Inner(Inner),
+}
+impl Fam for OptUnions {
+	const NAME: &'static str = "Option of enums-as-unions over unions with and without a null branch";
+	fn schema() -> S {
+		S::record(
+			"OptUnions",
+			vec![
+				("a", S::Union(vec![S::Int, S::String])),
+				("b", S::Union(vec![S::String, S::Int])),
+				("c", S::Union(vec![S::Int, S::Null, S::String])),
+				("d", S::Union(vec![S::Long, S::Bytes])),
+				("e", S::Union(vec![S::enum_("ns.Sym", &["A", "B", "C"]), inner_schema("ns.InnerU")])),
+				("z", S::Int),
+			],
+		)
+	}
+	fn values() -> Vec<Self> {
+		let mut ios = vec![IntOrString::String(String::new()), IntOrString::String("Int".into()), IntOrString::String("é".into())];
+		ios.extend(I32S.iter().map(|i| IntOrString::Int(*i)));
+		let ds = [LongOrBytesOrFx::Long(i64::MIN), LongOrBytesOrFx::Long(5), LongOrBytesOrFx::Bytes(vec![]), LongOrBytesOrFx::Bytes(vec![0, 0xff, 0x80])];
+		let es = [SymOrInner::Sym(Sym::A), SymOrInner::Sym(Sym::C), SymOrInner::Inner(Inner { x: -1, y: None }), SymOrInner::Inner(Inner { x: 64, y: Some(true) })];
+		let mut out = Vec::new();
+		for (i, a) in ios.iter().enumerate() {
+			for (j, b) in ios.iter().enumerate() {
+				let c = if (i + j) % 3 == 0 { None } else { Some(ios[(i + 2 * j) % ios.len()].clone()) };
+				out.push(OptUnions { a: Some(a.clone()), b: Some(b.clone()), c, d: Some(ds[(i + j) % ds.len()].clone()), e: Some(es[(i * 3 + j) % es.len()].clone()), z: -65 });
+			}
+		}
+		out
+	}
+	fn to_r(&self) -> R {
+		let ios = |v: &IntOrString, int_idx: usize, str_idx: usize| match v {
+			IntOrString::Int(i) => R::Union(int_idx, Box::new(R::Int(*i))),
+			IntOrString::String(s) => R::Union(str_idx, Box::new(rstr(s))),
+		};
+		R::Record(vec![
+			ios(self.a.as_ref().unwrap(), 0, 1),
+			ios(self.b.as_ref().unwrap(), 1, 0),
+			match &self.c {
+				None => R::Union(1, Box::new(R::Null)),
+				Some(v) => ios(v, 0, 2),
+			},
+			match self.d.as_ref().unwrap() {
+				LongOrBytesOrFx::Long(l) => R::Union(0, Box::new(R::Long(*l))),
+				LongOrBytesOrFx::Bytes(b) => R::Union(1, Box::new(R::Bytes(b.clone()))),
+			},
+			match self.e.as_ref().unwrap() {
+				SymOrInner::Sym(s) => R::Union(0, Box::new(sym_r(s))),
+				SymOrInner::Inner(i) => R::Union(1, Box::new(inner_r(i))),
+			},
+			R::Int(self.z),
+		])
+	}
+}
+
 #[derive(Serialize, Deserialize, Debug, Clone, PartialEq)]
 pub struct Borrowed<'a> {
 	s: &'a str,
@@ -712,8 +797,9 @@ pub fn run_all(cover: &mut Cover, out: &mut Vec<Violation>) {
 	run_family::<Logicals>(cover, out, None);
 	run_family::<WithNewtypes>(cover, out, None);
 	run_family::<Tuples>(cover, out, None);
+	run_family::<OptUnions>(cover, out, None);
 	run_borrowed(cover, out);
-	cover.count("typed_families", 14);
+	cover.count("typed_families", 15);
 }
 
 pub fn replay(family: &str, idx: usize) -> Vec<Violation> {
@@ -727,7 +813,7 @@ pub fn replay(family: &str, idx: usize) -> Vec<Violation> {
 			}
 		)*};
 	}
-	try_fam!(Prim, Floats, Widths, Opts, UnionNewtype, UnionStructVariant, WithEnum, Colls, List, Tree, Logicals, WithNewtypes, Tuples);
+	try_fam!(Prim, Floats, Widths, Opts, UnionNewtype, UnionStructVariant, WithEnum, Colls, List, Tree, Logicals, WithNewtypes, Tuples, OptUnions);
 	run_borrowed(&mut cover, &mut out);
 	out
 }
